@@ -83,6 +83,8 @@ THEOREMS = {
         "string_val_result_allocatable_partial", "vector_string_in", "vector_string_out_c_wrapper",
         "vector_string_out_fortran_undefined",
         "ifaceBlockGuard_all", "generic_member_own_condition", "assumed_rank_variants",
+        "pure_only_when_licensed", "not_pure_without_licence", "c_addr_iff_by_value", "struct_entry", "struct_pass_through",
+        "struct_addr_of_pointer_undefined",
     ]]
 }
 
@@ -282,6 +284,24 @@ def gen_description(r, idx):
                 dd["cpp_if"] = "ifdef HAVE_PICK%d" % g
             decls.append(dd)
         feats.append("cpp_if-on-generic-members:" + "".join(map(str, pat)))
+    if r.random() < 0.6:
+        # interface attributes that license optimisations: +pure, const methods, all-in vs out arguments, shadow / context results
+        decls.append({"decl": "int pcount(int s)"})
+        decls.append({"decl": "int psq(int x) +pure"})
+        decls.append({"decl": "int pout(int x, int *y +intent(out)) +pure"})
+        decls.append({"decl": "int *pdim(int n) +pure+dimension(n)"})
+        if cxx:
+            for d in decls:
+                if d.get("decl") == "class Cls":
+                    d["declarations"] += [{"decl": "int cget(int k) const"}, {"decl": "int cset(int k)"},
+                                          {"decl": "int cout(int *k +intent(out)) const"}, {"decl": "Cls *cself(int k) const"}]
+        feats.append("pure/const-interface-attributes")
+    if r.random() < 0.6:
+        # struct by value / pointer / reference, in / inout
+        forms = ["Pt p", "const Pt *p", "Pt *p +intent(inout)", "Pt *p +intent(out)"] + (["const Pt &p", "Pt &p", "Pt &p +intent(out)"] if cxx else [])
+        for k, f in enumerate(r.sample(forms, min(len(forms), 3))):
+            decls.append({"decl": "double sweigh%d(%s, int by)" % (k, f)})
+        feats.append("struct-by-value/pointer/reference")
     if r.random() < 0.35:
         lo, hi = r.choice([(0, 2), (0, 3), (1, 2), (1, 1), (0, 1), (2, 3)])
         decls.append({"decl": "int arsum(const int *values +dimension(..), int nvalues)",
